@@ -977,6 +977,13 @@ impl Extensions {
             }
         }
 
+        // A response with a nonce is for one client only: it must never enter the server cache,
+        // also when a later directive on the same line (`!> nonce &> cache server:full`)
+        // asked for it.
+        if cow_response.headers().contains_key("csp-nonce") {
+            *server_cache_preference = comprash::ServerCachePreference::None;
+        }
+
         *response = cow_response.map(utils::BytesCow::freeze);
     }
     pub(crate) async fn resolve_package(
